@@ -27,13 +27,14 @@ ANGLE_METHODS_RET = {
 
 class V:
     """abstract value"""
-    __slots__ = ("atoms", "const", "elems", "origin")
+    __slots__ = ("atoms", "const", "elems", "origin", "strs")
 
-    def __init__(self, atoms, const=None, elems=None, origin=None):
+    def __init__(self, atoms, const=None, elems=None, origin=None, strs=None):
         self.atoms = frozenset(atoms if not isinstance(atoms, str) else [atoms])
         self.const = const
         self.elems = elems
         self.origin = origin   # text of a defining expression (for reports)
+        self.strs = strs       # finite set of possible string values (None = unknown)
 
     def join(self, o):
         if o is None:
@@ -43,8 +44,9 @@ class V:
         elems = None
         if self.elems is not None and o.elems is not None and len(self.elems) == len(o.elems):
             elems = tuple(a.join(b) for a, b in zip(self.elems, o.elems))
+        strs = (self.strs | o.strs) if (self.strs is not None and o.strs is not None) else None
         return V(self.atoms | o.atoms, self.const if self.const == o.const else None, elems,
-                 self.origin if self.origin == o.origin else (self.origin or o.origin))
+                 self.origin if self.origin == o.origin else (self.origin or o.origin), strs)
 
     def only(self, *names):
         return bool(self.atoms) and self.atoms <= set(names)
@@ -53,7 +55,8 @@ class V:
         return bool(self.atoms & set(names))
 
     def __eq__(self, o):
-        return isinstance(o, V) and self.atoms == o.atoms and self.const == o.const and self.elems == o.elems
+        return isinstance(o, V) and self.atoms == o.atoms and self.const == o.const and self.elems == o.elems \
+            and self.strs == o.strs
 
     def __hash__(self):
         return hash((self.atoms, self.const))
@@ -241,14 +244,20 @@ class FuncAnalysis:
             self.refine(s.test, e1, True)
             self.refine(s.test, e2, False)
             t1 = t2 = False
-            try:
-                self.block(s.body, e1)
-            except Terminated:
+            if "$dead" in e1:
                 t1 = True
-            try:
-                self.block(s.orelse, e2)
-            except Terminated:
+            else:
+                try:
+                    self.block(s.body, e1)
+                except Terminated:
+                    t1 = True
+            if "$dead" in e2:
                 t2 = True
+            else:
+                try:
+                    self.block(s.orelse, e2)
+                except Terminated:
+                    t2 = True
             if t1 and t2:
                 raise Terminated()
             if t1:
@@ -257,10 +266,13 @@ class FuncAnalysis:
                 env.clear(); env.update(e1)
             else:
                 merged = {}
+                str_chain = is_string_dispatch(s.test)
                 for k in set(e1) | set(e2):
                     a, b = e1.get(k), e2.get(k)
                     if a is None or b is None:
-                        merged[k] = (a or b).join(V("undef"))
+                        # possibly-unassigned is only tracked for dispatch on a validated
+                        # string (R-ENUM); numeric chains are outside this rule
+                        merged[k] = (a or b).join(V("undef")) if str_chain else (a or b)
                     else:
                         merged[k] = a.join(b)
                 env.clear(); env.update(merged)
@@ -422,6 +434,24 @@ class FuncAnalysis:
                             r = r.join(x)
                         env[k] = r
             return
+        if isinstance(test, ast.Compare) and len(test.ops) == 1 and isinstance(test.ops[0], (ast.Eq, ast.NotEq)) \
+                and isinstance(test.left, ast.Name) and isinstance(test.comparators[0], ast.Constant) \
+                and isinstance(test.comparators[0].value, str):
+            k, lit = test.left.id, test.comparators[0].value
+            cur = env.get(k)
+            if cur is None:
+                return
+            eq = isinstance(test.ops[0], ast.Eq) == truth
+            if eq:
+                if cur.strs is not None and lit not in cur.strs:
+                    env["$dead"] = V("dead")
+                env[k] = V("str", const=lit, origin=cur.origin, strs=frozenset([lit]))
+            elif cur.strs is not None:
+                ns = cur.strs - {lit}
+                if not ns:
+                    env["$dead"] = V("dead")
+                env[k] = V(cur.atoms, cur.const, None, cur.origin, ns)
+            return
         if isinstance(test, ast.Call) and isinstance(test.func, ast.Name) and test.func.id == "isinstance" \
                 and len(test.args) == 2:
             k = self.refkey(test.args[0])
@@ -510,7 +540,12 @@ class FuncAnalysis:
             return TOP
         if isinstance(node, ast.Name):
             if node.id in env:
-                return env[node.id]
+                v = env[node.id]
+                if v.has("undef") and isinstance(node.ctx, ast.Load):
+                    self.event("undef", node, "variable `%s` may be unassigned here: it is assigned only on some branches of an "
+                               "if/elif chain without else that does not cover every admitted value" % node.id,
+                               "undef:" + node.id)
+                return v
             return self.global_name(node.id)
         if isinstance(node, ast.BinOp):
             return self.binop(node.op, self.ev(node.left, env), self.ev(node.right, env), node)
@@ -951,6 +986,14 @@ class FuncAnalysis:
                        "%s() receives a value that is already %s (defined by `%s`)"
                        % (name, describe(V(bad)), a.origin or norm_text(node.args[0])),
                        "%s:%s:%s" % (name, sorted(bad)[0], norm_text(node.args[0])[:80]))
+
+
+def is_string_dispatch(test):
+    if isinstance(test, ast.BoolOp):
+        return all(is_string_dispatch(v) for v in test.values)
+    return isinstance(test, ast.Compare) and len(test.ops) == 1 and isinstance(test.ops[0], (ast.Eq, ast.NotEq)) \
+        and isinstance(test.left, ast.Name) and isinstance(test.comparators[0], ast.Constant) \
+        and isinstance(test.comparators[0].value, str)
 
 
 OPSYM = {ast.Div: "/", ast.Mult: "*", ast.Mod: "%", ast.Pow: "**", ast.FloorDiv: "//"}
